@@ -98,12 +98,9 @@ Definition proj_spec (proj : string) (mac0 : bytes) (d : ra_info) : string :=
 
 (* ---------------- known defect classes: Model/Icmp6SpoofKnown.v ---------------- *)
 Definition key_of (proj : string) (p : bytes) (d : ra_info) : string :=
-  if known_prefix_len_over_128 p then "prefix-length-over-128"
-  else if String.eqb proj "rdnss" then
-    (if known_rdnss_malformed p then "rdnss-malformed" else if known_rdnss_multiple d then "rdnss-multiple" else "-")
+  if String.eqb proj "rdnss" then (if known_rdnss_multiple d then "rdnss-multiple" else "-")
   else if String.eqb proj "dnssl" then (if known_dnssl_multiple d then "dnssl-multiple" else "-")
-  else if String.eqb proj "ri" then
-    (if known_ri_reserved_prf p then "ri-reserved-prf" else if known_ri_multiple d then "ri-multiple" else "-")
+  else if String.eqb proj "ri" then (if known_ri_multiple d then "ri-multiple" else "-")
   else "-".
 
 (* ---------------- kind ra ---------------- *)
@@ -133,7 +130,7 @@ Definition do_ra (proj : string) (p : bytes) : string :=
   | Some d => let s := proj_spec proj std_eth d in
               out3 m s (if String.eqb m s then "-" else key_of proj p d)
   | None => let s := "err:EOther" in
-            out3 m s (if String.eqb m s then "-" else if known_prefix_len_over_128 p then "prefix-length-over-128" else "-")
+            out3 m s "-"
   end.
 
 (* ---------------- kind h ---------------- *)
